@@ -127,6 +127,10 @@ class C01(Property):
                     d["small_anim_limit"] = rng.random() < 0.3
             if not d.get("dynamic") and rng.random() < 0.5:
                 d["entry"] = rng.choice(["str", "format", "format", "iter"] if d.get("animated") else ["str", "format", "format"])
+                if d["entry"] == "iter" and d.get("method") != "anim" and rng.random() < 0.5:
+                    # a caching iterator that lives through a size change and the change back: one loop at the size
+                    # asked for, one at another size, then the first frame again at the first size (the judged output)
+                    d["entry"] = "iterhist"
             kind += ("-" + d["source"] if d.get("source") else "") + ("-" + d["entry"] if d.get("entry") else "") \
                 + ("-frames" if d.get("animated") and "-native" not in kind else "") + ("-subclass" if d.get("subclass") else "")
             yield Case("", d, kind, True)
@@ -164,9 +168,9 @@ class C01(Property):
         entry = d.get("entry")
         animated = im._is_animated  # Pillow merges identical frames: a "2-frame" file may have one
         frame_no = d.get("frame_no", 0) if animated and d.get("frame_no", 0) < im.n_frames else 0
-        if entry == "iter" and not animated:
+        if entry in ("iter", "iterhist") and not animated:
             entry = "format"
-        if frame_no and entry != "iter":
+        if frame_no and entry not in ("iter", "iterhist"):
             im.seek(frame_no)
         if not entry:
             return im._renderer(im._render_image, alpha, **style_args), style_args
@@ -199,6 +203,20 @@ class C01(Property):
         spec = "1.1" + a + ("+" + st if st else "")
         if entry == "format":
             return format(im, spec), eff
+        if entry == "iterhist":
+            size_a = im.size
+            it = ImageIterator(im, 3, spec, True)
+            try:
+                for _ in range(im.n_frames):
+                    next(it)
+                im.set_size(width=size_a[0] + 1, height=size_a[1] + 1)
+                for _ in range(im.n_frames):
+                    next(it)
+                im.set_size(width=size_a[0], height=size_a[1])
+                out = next(it)
+            finally:
+                it.close()
+            return out, eff
         it = ImageIterator(im, 1, spec, False)
         try:
             for _ in range(frame_no + 1):
